@@ -139,6 +139,8 @@ def run_check(mod, tier, seed, replay=None):
             core.merge_counts(agg["faults"], val.get("faults", {}))
             core.merge_counts(agg["probes"], val.get("probes", {}))
             core.merge_counts(agg["statuses"], val.get("statuses", {}))
+            for k_, r_ in val.get("max_resid", {}).items():
+                agg.setdefault("max_resid", {})[k_] = max(agg.setdefault("max_resid", {}).get(k_, 0.0), r_)
             agg["sim_months"] += val.get("sim_months", 0)
             agg["aborts"] += val.get("aborts", 0)
             agg["log_digests"].append(val.get("log_digest"))
@@ -231,13 +233,17 @@ def run_check(mod, tier, seed, replay=None):
         "distinct_history_logs": len(set(agg["log_digests"])),
         "run_digest": core.digest(sorted(x for x in agg["log_digests"] if x)),
         "components": getattr(mod, "COMPONENTS", {}),
+        "harness_error_count": n_harness,
         "harness_errors": agg["harness"][:5],
+        "max_residuals": agg.get("max_resid", {}),
         "known_findings_seen": {findings[i]["what"][:80]: c for i, c in known.items()},
         "exhaustive": bool(cfg.get("exhaustive", False)),
     }
     core.write_evidence(prop, tier, seed, mod.LEVEL, coverage, mod.ASSUMPTIONS, wall, len(unknown),
                         extra={"replays": replay_paths})
-    print("%s tier=%s seed=%s histories=%d evaluations=%d distinct_nontrivial=%d violations=%d known=%d wall=%.1fs exit=%d" % (
-        prop, tier, seed, agg["histories"], agg["evaluations"], len(agg["nontrivial"]), len(unknown),
+    print("%s tier=%s seed=%s histories=%d harness_errors=%d evaluations=%d distinct_nontrivial=%d violations=%d known=%d wall=%.1fs exit=%d" % (
+        prop, tier, seed, agg["histories"], n_harness, agg["evaluations"], len(agg["nontrivial"]), len(unknown),
         sum(known.values()), wall, rc))
+    if n_harness:
+        print("first harness error: %s" % json.dumps(agg["harness"][0])[-1500:])
     return rc
